@@ -768,5 +768,8 @@ func init() {
 		genWriter(r, n-n/4, tier, emit)
 		genStream(r, n/4, tier, emit)
 	}
-	gens["C13"] = genWriter
+	gens["C13"] = func(r *rng, n int, tier string, emit func(string, ...string)) {
+		genWriter(r, n-n/6, tier, emit)
+		genNames(r, n/6, tier, emit)
+	}
 }
